@@ -356,6 +356,12 @@ def jax_routine(ctx):
                     whyn = f"pivot shared by M row, residual and R column: {same_piv}, {piv_abs}, {col_ok}"
     ctx.ob("PAIR-4", f"{q}: new row = (M[pivot] - R) / sqrt(|residual[pivot]|) with one pivot", okn, whyn or
            "unmodelled update", fi)
+    # "stays differentiable": nothing in the routine detaches a value from the derivative (the 2-RDM mode
+    # differentiates through it); the pivot index is discrete anyway, the pivot *value* is not
+    from .c06 import BANNED
+    blockers = sorted({x.args[0] for t in (R, body) for x in subterms(t) if x.op in ("name", "fn") and x.args[0] in BANNED})
+    ctx.ob("PURE-1", f"{q}: no gradient-blocking call inside the differentiable Cholesky routine", not blockers,
+           f"calls {blockers}" if blockers else "none of " + ", ".join(sorted(BANNED)[:4]) + ", ...", fi)
     # buffer rows
     z = [t for t in subterms(cv0) if t.op == "call" and array_fn(t) == "zeros"]
     ctx.rep.note(f"{q}: the buffer has mat.shape[0] rows; nchol_max <= mat.shape[0] is the caller's obligation "
